@@ -31,7 +31,12 @@ ENTRY_NAME = {0: "LoadYAML", 1: "LoadMetadata", 2: "LoadWithoutEval", 3: "Load"}
 # C19 entry point -> the options it loads with (index of Check.opts_of)
 C19_ENTRY = {"LoadYAML": 0, "LoadMetadata": 1, "LoadWithoutEval": 2, "DAGStore.UpdateSpec": 0, "DAGStore.GetDetails": 2,
              "DAGStore.GetMetadata": 1, "DAGStore.List": 1, "DAGStore.ListPagination": 1, "DAGStore.Grep": 1,
-             "DAGStore.Find": 2, "DAGStore.TagList": 1, "entryReader": 1, "Load": 3}
+             "DAGStore.Find": 2, "DAGStore.TagList": 1, "entryReader": 1, "Load": 3,
+             # the display path through the client / API: loads without evaluation, then builds an execution graph
+             # (scheduler.NewExecutionGraph -> node.init) only to validate it
+             "Client.GetStatus": 2, "Client.GetAllStatus": 1, "Client.GetAllStatusPagination": 1,
+             "Client.GetStatusByRequestID": 2, "Client.GetDAGSpec": 1, "display-graph": 2,
+             "API.GetDagDetails": 2, "API.ListDags": 1}
 NON_EXECUTING = [e for e in C19_ENTRY if e != "Load"]
 
 
